@@ -44,7 +44,7 @@ use std::{
 /// The infix starts always with "r".
 /// For more details how its precise content can be influenced, see [`Naming`](crate::Naming).
 ///
-#[derive(Debug, Clone, Eq, PartialEq)]
+#[derive(Debug, Clone)]
 pub struct FileSpec {
     pub(crate) directory: PathBuf,
     pub(crate) basename: String,
@@ -55,6 +55,18 @@ pub struct FileSpec {
     o_suffix: Option<String>,
     pub(crate) use_utc: bool,
 }
+// (equality does not depend on whether the start time was already determined)
+impl PartialEq for FileSpec {
+    fn eq(&self, other: &Self) -> bool {
+        self.directory == other.directory
+            && self.basename == other.basename
+            && self.o_discriminant == other.o_discriminant
+            && self.timestamp_cfg == other.timestamp_cfg
+            && self.o_suffix == other.o_suffix
+            && self.use_utc == other.use_utc
+    }
+}
+impl Eq for FileSpec {}
 impl Default for FileSpec {
     /// Describes a file in the current folder,
     /// using, as its filestem, the program name followed by the current timestamp,
